@@ -202,11 +202,39 @@ def _body():
     return tree.body[0].body, src
 
 
+def _helpers():
+    """the other methods of the class: inlined when the sizing code calls them"""
+    out = {}
+    try:
+        src  = textwrap.dedent(inspect.getsource(m_launch.PMGRLaunchingComponent))
+        tree = ast.parse(src)
+        for node in tree.body[0].body:
+            if isinstance(node, ast.FunctionDef) and \
+               node.name != '_prepare_pilot':
+                out[node.name] = node
+    except Exception:
+        pass
+    return out
+
+
+def _assigns(stmt, name):
+    for node in ast.walk(stmt):
+        tg = []
+        if isinstance(node, ast.Assign): tg = node.targets
+        elif isinstance(node, (ast.AugAssign, ast.AnnAssign)): tg = [node.target]
+        for t in tg:
+            for sub in ast.walk(t):
+                if isinstance(sub, ast.Name) and sub.id == name:
+                    return True
+    return False
+
+
 def _run_pilot(body, suffix, rec, fresh, inputs):
     ev = E.Evaluator(record='rcfg', outputs=('jd_dict', 'agent_cfg'),
                      suffix=suffix, inputs=inputs, input_names=INPUTS,
                      list_names=LISTS,
-                     record_fields=('cores_per_node', 'gpus_per_node'))
+                     record_fields=('cores_per_node', 'gpus_per_node'),
+                     helpers=_helpers())
     st0 = E.State({}, rec, {}, [], fresh)
     out = ev.run(body, [st0])
     return ev, [s for s in out if s.status == 'ok']
@@ -261,10 +289,10 @@ def _concrete_slice(src_lines_ns, vals):
     body, src = _body()
     first = last = None
     for stmt in body:
-        txt = ast.unparse(stmt)
-        if first is None and txt.startswith('smt = '):
+        if first is None and isinstance(stmt, ast.Assign) \
+           and _assigns(stmt, 'smt'):
             first = stmt
-        if txt.startswith('allocated_gpus = '):
+        if _assigns(stmt, 'allocated_gpus'):
             last = stmt
     assert first is not None and last is not None, 'sizing slice not found'
     lines = src.splitlines()[first.lineno - 1:last.end_lineno]
@@ -273,6 +301,7 @@ def _concrete_slice(src_lines_ns, vals):
            type('R', (), {'cores_per_node': vals['cpn'],
                           'gpus_per_node': vals['gpn']})()
     ns = {'os': type('o', (), {'environ': {}})(), 'math': math,
+          'self': object.__new__(m_launch.PMGRLaunchingComponent),
           'rcfg': rcfg,
           'system_architecture': {'smt': vals['smt']},
           'cores_per_node': rcfg.cores_per_node,
